@@ -332,6 +332,13 @@ func (w *c14WS) SendText(b []byte) error {
 	return w.c.WriteMessage(websocket.TextMessage, b)
 }
 
+// WaitRegistered waits for the server's peer_list, which it sends right after the peer
+// was added to the hub (the 101 response precedes the registration).
+func (w *c14WS) WaitRegistered(timeout time.Duration) bool {
+	_, ok := w.WaitMsg(timeout, func(m c14Msg) bool { return m.Type == "peer_list" && m.From == "server" })
+	return ok
+}
+
 // CloseGraceful performs the close handshake and returns the time at which the server's
 // side of the TCP connection was observed closed (0 if not observed).
 func (w *c14WS) CloseGraceful(wait time.Duration) int64 {
